@@ -375,6 +375,15 @@ fn run_check(id: &str, tier: &str) -> i32 {
     // ---- classify findings ----
     let known = load_known();
     a.findings.sort_by_key(|(i, _, f)| (f.rule.clone(), *i));
+    if let Ok(p) = std::env::var("VERIF_DUMP_FINDINGS") {
+        // analysis aid: every finding of the search (before classification), one JSON object per line
+        let mut s = String::new();
+        for (i, _, f) in a.findings.iter() {
+            s.push_str(&serde_json::json!({"run": i, "rule": f.rule, "facts": f.facts, "known": known_match(&known, id, f).is_some(), "detail": f.detail.chars().take(200).collect::<String>()}).to_string());
+            s.push('\n');
+        }
+        let _ = std::fs::write(p, s);
+    }
     let mut known_hits: BTreeMap<String, (u64, String)> = BTreeMap::new();
     let mut new_by_rule: BTreeMap<String, Vec<(u64, Plan, Finding)>> = BTreeMap::new();
     for (i, p, f) in a.findings.iter() {
